@@ -55,6 +55,42 @@ theorem _root_.KafVerif.C06.restart {cfg : Cfg} {s c r : State} (h : Reachable f
     omega
   · have := mi.core.hw; omega
 
+/-- **C06 (restart) for every sound shape** (`BuildSegment` failing by a stricter rule or by the fault oracle, with a re-queueing
+error exit of `prepareFlush`; or the source's rule and exit).  From every reachable state: crash, then re-open.  The re-open succeeds; every
+batch acknowledged before the crash is in a registered segment that covers its base offset and
+whose S3 object (with index) contains it; the next offset to assign is beyond every acknowledged
+offset and not below the published watermark; the watermark did not move back. -/
+theorem _root_.KafVerif.C06.restart_sound {v : Variant} (hv : Sound v) {cfg : Cfg} {s c r : State} (h : Reachable v cfg s)
+    (hc : step v s .crash = some c) (hr : step v c .restore = some r) :
+    ∃ m, r.mem = some m ∧ m.buffer = [] ∧
+      (∀ b ∈ s.acked, Readable r m b) ∧
+      (∀ b ∈ s.acked, b.endOff ≤ m.next) ∧
+      s.hw ≤ m.next ∧ s.hw ≤ r.hw := by
+  have hrc : Reachable v cfg c := Reachable.step _ h hc
+  have hrr : Reachable v cfg r := Reachable.step _ hrc hr
+  obtain ⟨hir, hsome⟩ := inv_restore_of hv (reachable_inv_of hv hrc) hr
+  obtain ⟨m, hm⟩ := Option.isSome_iff_exists.mp hsome
+  have mi := memInv_of hir hm
+  obtain ⟨ha1, hhw1, _, _, hcm⟩ := step_crash_eq hc
+  obtain ⟨ha2, _, _⟩ := step_restore_eq hr
+  have hacked : r.acked = s.acked := by rw [ha2, ha1]
+  have hmono : s.hw ≤ r.hw := by
+    have := KafVerif.C05.hw_mono_sound hv c r .restore hr
+    omega
+  obtain ⟨mid, c1, c2⟩ := Contig_append.mp mi.contig
+  have hnext : segEnd m.segments ≤ m.next := Nat.le_trans (Contig_le c1) (Contig_le c2)
+  have hbuf : m.buffer = [] := by
+    simp only [step, hcm] at hr
+    split at hr
+    · simp only [Option.some.injEq] at hr; subst hr; rw [hcm] at hm; cases hm
+    · split at hr <;> (simp only [Option.some.injEq] at hr; subst hr; simp at hm; subst hm; rfl)
+  refine ⟨m, hm, hbuf, ?_, ?_, ?_, hmono⟩
+  · intro b hb; exact mi.core.acked b (hacked ▸ hb)
+  · intro b hb
+    have := Comm_end_le mi.core (mi.core.acked b (hacked ▸ hb))
+    omega
+  · have := mi.core.hw; omega
+
 /-- The re-open of a crashed reachable state never fails (`RestoreFromS3` meets no index-less
 segment below the stored next offset): availability after restart. -/
 theorem _root_.KafVerif.C06.restore_succeeds {cfg : Cfg} {c : State} (h : Reachable fixed cfg c)
